@@ -764,6 +764,7 @@ class PDFDocument:
         self._parser = None
         self._cached_objs: Dict[int, Tuple[object, int]] = {}
         self._parsed_objs: Dict[int, Tuple[List[object], int]] = {}
+        self._objstms_in_progress: Set[int] = set()
         self._parser = parser
         self._parser.set_document(self)
         self.is_printable = self.is_modifiable = self.is_extractable = True
@@ -912,8 +913,20 @@ class PDFDocument:
                     continue
                 try:
                     if strmid is not None:
-                        stream = stream_value(self.getobj(strmid))
-                        obj = self._getobj_objstm(stream, index, objid)
+                        # An object stream is never stored in an object
+                        # stream, and reading its header never needs one of
+                        # its own objects: (damaged) entries saying so would
+                        # send getobj round in circles.
+                        if strmid in self._objstms_in_progress:
+                            raise PDFSyntaxError(
+                                "object stream %r is stored in itself" % strmid
+                            )
+                        self._objstms_in_progress.add(strmid)
+                        try:
+                            stream = stream_value(self.getobj(strmid))
+                            obj = self._getobj_objstm(stream, index, objid)
+                        finally:
+                            self._objstms_in_progress.discard(strmid)
                     else:
                         obj = self._getobj_parse(index, objid)
                         if self.decipher and objid != self._encrypt_objid:
